@@ -419,7 +419,10 @@ def check(pid, tier, regen=False):
         R.assumptions = ["TLC evaluates spec/UtilSem.tla / Term.tla correctly (Z3 agrees on every rejected event, else exit 2)",
                          "Z3's own simplifier is trusted where a Z3 application is abstracted after z3.simplify",
                          "FP and string terms: only the outcome of simplify is checked, not equivalence",
-                         "Solver.simplify() keeping the model set is covered by the solver engine (C11..C13), not here"]
+                         "Solver.simplify(): small-width histories with SimplificationAvoidanceAnnotation constraints validated "
+                         "against SolverAbs (simplify leaves the model set unchanged)"]
+        from . import eng_solver
+        R.coverage["solver_simplify_calls"] = eng_solver.simplify_stream(R, pid, tier, C.seed())
     return R.finish()
 
 
